@@ -1815,8 +1815,10 @@ class Compiler:
             self._current_slot.append(slot.name)
 
             # The conversion helpers look up the translation settings
-            # in the enclosing function; the filler has its own.
-            body = emit_func_convert("__convert") + \
+            # in the enclosing function; the filler has its own. It
+            # writes to the stream it's called with.
+            body = template("__append = __stream.append") + \
+                emit_func_convert("__convert") + \
                 emit_func_convert_and_escape("__quote") + \
                 self.visit_Context(slot)
 
